@@ -211,6 +211,25 @@ PROPS["C13"] = dict(
     floor=dict(quick=10000, thorough=100000),
 )
 
+PROPS["C09"] = dict(
+    level="exploration",
+    technique="rapidcheck differential testing of the i15/i31/i32/i62 big-integer routines against GMP with class-generated operands, stratified modulus lengths and generated memory placements between canaries; boundary-product and full 2^32 unary enumeration of the word primitives against plain C arithmetic",
+    rule=("case = (variant i15/i31/i32, function group among add/sub, decode/encode/bit_length, decode_mod, decode_reduce/reduce, muladd_small, "
+          "mulacc/rshift, ninv/to_monty/from_monty, montymul, modpow + modpow_opt with minimal / larger / too-short temporary area, i62_modpow_opt, "
+          "moddiv with invertible and non-invertible divisor; modulus bit length 9..4096 stratified over residues of 15/31/32/60; operand classes "
+          "0, 1, m-1, m-2, 2^j, 2^j+-1, all-ones, top word(s) equal to the modulus, m>>1, random; 2-byte/4-byte placement offsets 0..3 for each of "
+          "d, x, y, m; slack content) or a word-primitive case. non-trivial = operands not all in {0,1}; distinct = (variant, function, bit length, "
+          "operand classes, placement)"),
+    assumptions=["GMP is correct", "all 2^64 pairs of the binary word primitives are not enumerated (the property names an SMT proof; here: full boundary product + random pairs + all 2^32 values of the unary ones in thorough mode)",
+                 "modpow_opt is called with a temporary area of at least two values rounded up to an even word count (what every in-tree caller provides); exactly 2*(1+n) words with 1+n odd is refused by the code although the comment allows it: observation, not judged"],
+    targets=[dict(name="c09_bigint", src="c09_bigint.cpp", flavour="san", libs=GMP, c_src=["c09_shim.c"])],
+    quick=[("c09_bigint", "enum", dict(shards=16)),
+           ("c09_bigint", "rc", dict(cases=160000, shards=16))],
+    thorough=[("c09_bigint", "enum", dict(shards=16)),
+              ("c09_bigint", "rc", dict(cases=4000000, shards=16))],
+    floor=dict(quick=10000, thorough=100000),
+)
+
 # ---------------------------------------------------------------- manifest text
 HOOK_COMMITS = ["b37444c", "e1637c5"]
 NOT_APPLICABLE = {}
@@ -309,4 +328,13 @@ MANIFEST_TEXT["C13"] = dict(
           "for HMAC with hidden length all (min,len,max) triples up to three blocks in thorough mode (strided in quick) with TLS-like prefixes."),
     design_ref="DESIGN.md section 4, C13",
     note="trusts OpenSSL; DRBG/MGF1 references are short harness implementations of SP 800-90A / PKCS#1 B.2.1 / the documented AESCTR construction",
+)
+
+MANIFEST_TEXT["C09"] = dict(
+    text=("Every multi-precision routine of the i15 (the variant the ESP8266 uses), i31, i32 and i62 code is compared with GMP on operands built "
+          "to hit the carry, quotient-estimate and Montgomery edge paths, at every modulus length residue and at every combination of array "
+          "placement offsets (the port-specific i15 montymul has four alignment paths), with canaries proving that nothing outside the documented "
+          "extent is written. Word primitives: exhaustive boundary product for binary ones, all 2^32 inputs for unary ones (thorough)."),
+    design_ref="DESIGN.md section 4, C09",
+    note="search, not proof: the 2^64-pair claim for binary primitives is covered by boundary product + random pairs only",
 )
